@@ -2,3 +2,5 @@ import RaftWal.Props.C03
 #print axioms RaftWal.C03.recover_total_on_torn
 #print axioms RaftWal.C03.recovered_empty_not_sealed
 #print axioms RaftWal.C03.usable_after_reopen
+#print axioms RaftWal.C03.recovery_usable_any_crash
+#print axioms RaftWal.C03.open_can_fail_outside_invariant
